@@ -41,6 +41,12 @@ def climbs_above_root(here_path, p):
 
 def check_tree(schema, rng, n_paths):
     fails = []
+    glob_rng = random.Random(rng.random())
+    gname, sub = None, None
+    if '_default' not in schema and glob_rng.random() < 0.6:
+        sub = gen_schema(glob_rng, 2)
+        gname = glob_rng.choice(['G', 'agents'])
+        schema = dict(schema, **{gname: {'*': sub}})
     root = Store(schema)
     # graft a detached subtree below the root with add_node (the primitive behind _move), under a path of 1..3 segments:
     # afterwards the parent pointers must describe the place where the subtree really sits
@@ -51,6 +57,24 @@ def check_tree(schema, rng, n_paths):
             root.add_node(gp, graft)
         except Exception as e:
             fails.append('add_node(%s) raised %s: %s' % (gp, type(e).__name__, str(e)[:100]))
+    # children created from a glob ('*') sub-schema when a value with new keys is set (initial state, add, divide):
+    # they are created by Store.set_value / generate_value, not by the schema walk, and must hang in the tree like any other
+    if gname is not None:
+        rng_, rng = rng, glob_rng
+        try:
+            gnode = root.get_path((gname,))
+
+            def val(sch):
+                if '_default' in sch:
+                    return rng.choice([3, 4, 5])
+                return {k: val(v) for k, v in sch.items()}
+            gnode.set_value({'n1': val(sub), 'n2': val(sub)})
+            gnode.generate_value({'n3': val(sub)})
+            if len(gnode.inner) < 3:
+                fails.append('glob node %s has children %s after set_value/generate_value of n1, n2, n3' % (gname, list(gnode.inner)))
+        except Exception as e:
+            fails.append('glob set_value raised %s: %s' % (type(e).__name__, str(e)[:100]))
+        rng = rng_
     ns = nodes(root)
     for n in ns:
         for k, ch in n.inner.items():
